@@ -124,7 +124,7 @@ def recovery_strategy():
         table = draw(S.table_spec(2, 5, 400, 3000, kinds=['normal', 'uniform'], constant=False))
         table['corr']['kind'] = draw(st.sampled_from(['factor', 'equi', 'ar1']))
         table['corr']['lam'] = max(table['corr']['lam'], 0.5)
-        return {'table': table, 'form': draw(st.sampled_from(['class', 'fqn', 'instance']))}
+        return {'table': table, 'form': draw(st.sampled_from(['class', 'fqn', 'instance', 'instance-shared']))}
 
     return cases()
 
@@ -136,7 +136,15 @@ def oracle_recovery(case):
     n = len(df)
     cfg = {'mode': 'dict', 'cols': {str(j): {'form': case['form'], 'name': MATCH[m['kind']], 'opts': {}}
                                      for j, m in enumerate(case['table']['marginals'])}}
-    model = M.build_gaussian(cfg, names)
+    if case['form'] == 'instance-shared':
+        # one prototype object per family, given for every column of that family: a prototype is only a template
+        from copulas.multivariate import GaussianMultivariate
+
+        protos = {}
+        dist = {names[j]: protos.setdefault(m['kind'], M.uni_class(MATCH[m['kind']])()) for j, m in enumerate(case['table']['marginals'])}
+        model = GaussianMultivariate(distribution=dist)
+    else:
+        model = M.build_gaussian(cfg, names)
     value(model.fit, df.copy(), what='fit')
     # marginals: closed-form estimators, every dataset
     for j, spec in enumerate(case['table']['marginals']):
